@@ -5,6 +5,7 @@ import Model.Table
 import Model.State
 import Model.Score
 import Model.ProbingLM
+import Model.ProbingBuild
 /-! Driver for stream `lm-query` (C01/C02/C03): parses THE SAME ARPA BYTES the harness loads and prints,
 per query word, the exact L0 spec score plus the L1 algorithm's results (FullScore from the running
 state, FullScoreForgotState with the whole history, GetState of the new history).
@@ -18,6 +19,8 @@ structure Loaded where
   T : Table
   S : Search (List Word)
   Sq : Search (List Word)     -- with the probing unigram sign-bit quirk
+  pb : Except KV.ProbingBuild.BErr KV.ProbingBuild.St      -- ProbingModel as built by the model of the builder
+  pbRest : Except KV.ProbingBuild.BErr KV.ProbingBuild.St  -- RestProbingModel (REST_MAX)
 
 def ratStr (q : Rat) : String := toString q.num ++ "/" ++ toString q.den
 
@@ -57,7 +60,30 @@ def hashInjective (a : Arpa) : Bool :=
   let set : Std.HashSet (Nat × Nat) := hs.foldl (fun m x => m.insert x) {}
   set.size == hs.length && hs.all (fun x => x.2 != 0)
 
-def load (maxOrder : Nat) (path : String) : IO (Except String (Loaded × String)) := do
+/-- run-time instance of `probing_build_represents`: every key of `Table.build a` is found in the model-built probing
+structure with payload `toFound` of the table entry (prob, back-off, both marks), via the chained hash -/
+def representsCheck (a : Arpa) (T : Table) (st : KV.ProbingBuild.St) : Bool :=
+  (keys a).all fun g =>
+    match T.lookup g with
+    | none => true
+    | some t =>
+      let want := toFound t
+      match g with
+      | [] => true
+      | [w] => KV.ProbingBuild.wFound false (st.uni.getD w default) == want
+      | _ =>
+        let key := KV.ProbingLM.hashOf KV.ProbingLM.combineReal g
+        if g.length == a.order then
+          match KV.Probing.find id st.longest.t key with
+          | some (some i) => -(st.longest.pay.getD i default).mag == t.prob
+          | _ => false
+        else
+          let o := st.mid.getD (g.length - 2) default
+          match KV.Probing.find id o.t key with
+          | some (some i) => KV.ProbingBuild.wFound false (o.pay.getD i default) == want
+          | _ => false
+
+def load (maxOrder : Nat) (path : String) (buckets : List Nat) : IO (Except String (Loaded × String)) := do
   let bytes ← IO.FS.readBinFile path
   match parse maxOrder (-100) bytes.toList with
   | .error e => return .error e.name
@@ -66,7 +92,10 @@ def load (maxOrder : Nat) (path : String) : IO (Except String (Loaded × String)
     let (T, blanks, proper) := memoTable a
     let vs := p.vocab.map fun b => (String.fromUTF8? (ByteArray.mk b.toArray)).getD "?"
     let idx : Std.HashMap String Nat := (vs.zipIdx).foldl (fun m (s, i) => if m.contains s then m else m.insert s i) {}
-    let L : Loaded := { arpa := a, vocabArr := vs.toArray, vocabIdx := idx, T := T, S := tableSearch T, Sq := tableSearch (withSignQuirk a T) }
+    let pb := if buckets.isEmpty then .error .diverge else KV.ProbingBuild.build KV.ProbingLM.combineReal false a vs.length buckets
+    let pbR := if buckets.isEmpty then .error .diverge else KV.ProbingBuild.build KV.ProbingLM.combineReal true a vs.length buckets
+    let L : Loaded := { arpa := a, vocabArr := vs.toArray, vocabIdx := idx, T := T, S := tableSearch T, Sq := tableSearch (withSignQuirk a T),
+                        pb := pb, pbRest := pbR }
     let b2s (b : Bool) := if b then "1" else "0"
     let info := "arpa ok order=" ++ toString a.order ++ " entries=" ++ toString a.entries.length ++
       " blanks=" ++ toString blanks ++ " closed=" ++ b2s a.suffixClosed ++ " ctx=" ++ b2s a.contextsPresent ++
@@ -74,6 +103,9 @@ def load (maxOrder : Nat) (path : String) : IO (Except String (Loaded × String)
       " blank=" ++ joinOr ((List.range a.order).map fun n => toString ((keys a).filter fun g => g.length == n + 1 && !a.isReal g).length) ++
       " nzbo=" ++ joinOr ((List.range a.order).map fun n => toString (a.entries.filter fun p => p.1.length == n + 1 && p.2.backoff != 0).length) ++
       " hashinj=" ++ b2s (hashInjective a) ++
+      " pbuild=" ++ (match pb with | .ok _ => "ok" | .error e => e.name) ++
+      " pbuildrest=" ++ (match pbR with | .ok _ => "ok" | .error e => e.name) ++
+      " prep=" ++ (match pb with | .ok st => b2s (representsCheck a T st) | .error _ => "-") ++
       " proper=" ++ b2s proper ++ " distinct=" ++ b2s a.keysDistinct ++ " unk=" ++ b2s (!a.unkHallucinated)
     return .ok (L, info)
 
@@ -101,17 +133,56 @@ def walk (L : Loaded) (start : String) (ws : List String) : String :=
       go rest o (id :: h) (rec_ :: acc)
   " | ".intercalate (go ws s0 h0 [])
 
+/-- enumerate one entry of the model-built probing structure (reversed n-gram `g`) through the same lookups as the harness -/
+def enumEntry (order : Nat) (rest : Bool) (st : KV.ProbingBuild.St) (g : List Word) : String :=
+  let showW (w : KV.ProbingBuild.W) (full : Bool) : String :=
+    "1 " ++ (if w.neg then "1" else "0") ++ " " ++ ratStr w.mag ++
+      (if full then " " ++ ratStr w.backoff ++ " " ++ (if w.xr then "1" else "0") ++ " " ++ ratStr (if rest then w.rest else -w.mag)
+       else " - - -")
+  match g with
+  | [] => "0"
+  | [w] => showW (st.uni.getD w default) true
+  | _ =>
+    let key := KV.ProbingLM.hashOf KV.ProbingLM.combineReal g
+    -- every proper prefix must be found too (the harness walks down through LookupMiddle)
+    let prefOk := (List.range (g.length - 1)).all fun i =>
+      i == 0 || (match KV.Probing.find id ((st.mid.getD (i - 1) default).t) (KV.ProbingLM.hashOf KV.ProbingLM.combineReal (g.take (i + 1))) with
+                 | some (some _) => true | _ => false)
+    if !prefOk then "0"
+    else if g.length == order then
+      match KV.Probing.find id st.longest.t key with
+      | some (some i) => showW (st.longest.pay.getD i default) false
+      | _ => "0"
+    else
+      let o := st.mid.getD (g.length - 2) default
+      match KV.Probing.find id o.t key with
+      | some (some i) => showW (o.pay.getD i default) true
+      | _ => "0"
+
 partial def mainLoop (maxOrder : Nat) (h : IO.FS.Stream) (L : Option Loaded) : IO Unit := do
   let line ← h.getLine
   if line.isEmpty then return ()
   match words line with
-  | "arpa" :: path :: _ =>
-    match ← load maxOrder path with
+  | "arpa" :: path :: opts =>
+    let buckets : List Nat := match opts.find? (fun o => o.startsWith "buckets=") with
+      | some o => ((o.drop 8).toString.splitOn ",").filterMap String.toNat?
+      | none => []
+    match ← load maxOrder path buckets with
     | .ok (L', info) => IO.println info; mainLoop maxOrder h (some L')
     | .error e => IO.println ("arpa error " ++ e); mainLoop maxOrder h none
   | "q" :: start :: ws =>
     match L with
     | some L' => IO.println (walk L' start ws); mainLoop maxOrder h L
+    | none => IO.println "no-model"; mainLoop maxOrder h L
+  | "e" :: ws =>
+    match L with
+    | some L' =>
+      let g := (ws.map L'.idx).reverse
+      let one (tag : String) (rest : Bool) (r : Except KV.ProbingBuild.BErr KV.ProbingBuild.St) : String :=
+        match r with
+        | .ok st => tag ++ ": " ++ enumEntry L'.arpa.order rest st g
+        | .error e => tag ++ ": error " ++ e.name
+      IO.println (one "P" false L'.pb ++ " ## " ++ one "R" true L'.pbRest); mainLoop maxOrder h L
     | none => IO.println "no-model"; mainLoop maxOrder h L
   | _ => IO.println "bad-op"; mainLoop maxOrder h L
 
